@@ -1,4 +1,4 @@
-"""Byte-level fuzz targets (coverage-guided, Atheris / libFuzzer) for C12, C03 and C01.
+"""Byte-level fuzz targets (coverage-guided, Atheris / libFuzzer) for C12, C03, C01, C13, C16 and C19.
 
 Each target decodes the fuzzer's bytes into a structured case (FuzzedDataProvider-like layer written
 here so that the same decoding is used by the replay path without atheris) and evaluates the SAME
@@ -184,5 +184,96 @@ def c01_target(data: bytes) -> None:
         raise Violation(res.failures[0].bucket + ": " + res.failures[0].msg[:300])
 
 
-TARGETS = {"C12": c12_target, "C03": c03_target, "C01": c01_target}
-CASES = {"C12": c12_case, "C03": c03_case, "C01": c01_case}
+# ------------------------------------------------------------------------------------------
+# C16 (cookie round trip), C19 (event-stream round trip), C13 (header histories)
+
+_TOKEN = "!#$%&'*+-.^_`|~0123456789ABCDEFGHIJKLMNOPQRSTUVWXYZabcdefghijklmnopqrstuvwxyz"
+
+
+def c16_case(data: bytes) -> Dict[str, Any]:
+    r = Reader(data)
+    n = 1 + r.byte() % 3
+    foreign = r.byte() % 2 == 0
+    cookies, seen = [], set()
+    for i in range(n):
+        name = "".join(_TOKEN[b % len(_TOKEN)] for b in r.take(1 + r.byte() % 4)) or f"k{i}"
+        if name in seen:
+            name += str(i)
+        seen.add(name)
+        value = (r.chunk(24) if i < n - 1 else r.rest()).decode("latin-1")
+        cookies.append({"name": name, "value": value, "expires": None, "max_age": None})
+    return {"cookies": cookies, "tz": "UTC0", "foreign": foreign}
+
+
+def c16_target(data: bytes) -> None:
+    from checks import C16
+
+    res = C16.oracle(c16_case(data))
+    if res.failures:
+        raise Violation(res.failures[0].bucket + ": " + res.failures[0].msg[:300])
+
+
+def _text(b: bytes) -> str:
+    return b.decode("utf-8", "ignore")
+
+
+def c19_case(data: bytes) -> Dict[str, Any]:
+    r = Reader(data)
+    n = 1 + r.byte() % 3
+    events = []
+    for i in range(n):
+        shape = r.byte()
+        ev: Dict[str, Any] = {}
+        if shape & 1:
+            ev["event"] = _text(r.chunk(8)).translate({13: None, 10: None, 0: None})
+        if shape & 2:
+            ev["id"] = _text(r.chunk(8)).translate({13: None, 10: None, 0: None})
+        if shape & 4:
+            ev["retry"] = r.byte() * 37
+        if shape & 8 or not ev:
+            ev["data"] = _text(r.chunk(40) if i < n - 1 else r.rest())
+        events.append(ev)
+    return {"events": events, "charset": "utf-8", "pings": [r.byte() % (n + 1)] if data and data[0] & 0x80 else []}
+
+
+def c19_target(data: bytes) -> None:
+    from checks import C19
+
+    res = C19.oracle_block(c19_case(data))
+    if res.failures:
+        raise Violation(res.failures[0].bucket + ": " + res.failures[0].msg[:300])
+
+
+def c13_case(data: bytes) -> Dict[str, Any]:
+    r = Reader(data)
+    kinds = ["set", "append", "setdefault", "del", "update_map", "update_pairs", "update_headers"]
+    reserved = ("set-cookie", "content-length", "content-type", "location", "")
+    ops: List[Any] = []
+    for _ in range(r.byte() % 6):
+        kind = r.pick(kinds)
+        key = r.chunk(6).decode("latin-1")
+        if key.lower() in reserved:
+            key = "x-" + key
+        val = r.chunk(12).decode("latin-1")
+        if kind == "del":
+            ops.append([kind, key])
+        elif kind.startswith("update"):
+            ops.append([kind, [[key, val]]])
+        else:
+            ops.append([kind, key, val])
+    cookies = []
+    for i in range(r.byte() % 3):
+        cookies.append({"name": r.chunk(6).decode("latin-1"), "value": r.chunk(16).decode("latin-1"), "delete": r.byte() % 4 == 0})
+    return {"response": r.pick(["empty", "plain", "json", "redirect"]), "ops": ops, "cookies": cookies}
+
+
+def c13_target(data: bytes) -> None:
+    from checks import C13
+
+    res = C13.oracle(c13_case(data))
+    if res.failures:
+        raise Violation(res.failures[0].bucket + ": " + res.failures[0].msg[:300])
+
+
+TARGETS = {"C12": c12_target, "C03": c03_target, "C01": c01_target, "C16": c16_target, "C19": c19_target, "C13": c13_target}
+CASES = {"C12": c12_case, "C03": c03_case, "C01": c01_case, "C16": c16_case, "C19": c19_case, "C13": c13_case}
